@@ -10,10 +10,12 @@ func CompileToGetCodeSet(ctx *RuntimeContext, typeptr uintptr) (*OpcodeSet, erro
 		if err != nil {
 			return nil, err
 		}
+		verifCodeSet(typeptr, codeSet, -1)
 		return getFilteredCodeSetIfNeeded(ctx, codeSet)
 	}
 	index := (typeptr - typeAddr.BaseTypeAddr) >> typeAddr.AddrShift
 	if codeSet := cachedOpcodeSets[index]; codeSet != nil {
+		verifCodeSet(typeptr, codeSet, int(index))
 		filtered, err := getFilteredCodeSetIfNeeded(ctx, codeSet)
 		if err != nil {
 			return nil, err
@@ -24,6 +26,8 @@ func CompileToGetCodeSet(ctx *RuntimeContext, typeptr uintptr) (*OpcodeSet, erro
 	if err != nil {
 		return nil, err
 	}
+	verifCodeSet(typeptr, codeSet, int(index))
+	verifYield("enc-cache:compiled")
 	filtered, err := getFilteredCodeSetIfNeeded(ctx, codeSet)
 	if err != nil {
 		return nil, err
